@@ -1,1 +1,450 @@
-//! C25: not implemented yet.
+//! C25 — tampered NTS packets are never accepted as authentic.
+//!
+//! Positional sweep (engine E-IN) over hand-assembled, valid NTS datagrams (grammar and
+//! layout bookkeeping of `c23.rs`): requests (decoded by the server with its cookie key
+//! set) and responses (decoded by the client with its s2c key), NTPv4 and NTPv5, both AEAD
+//! algorithms, authenticator plain / with extra in-field tail bytes / with a 13-byte nonce
+//! (3 nonce padding bytes), two plaintexts each, 0..2 fields (or a raw MAC) after the
+//! authenticator.
+//!
+//! For each base: EVERY single-bit flip of every byte, plus byte substitutions
+//! (quick: xor FF, 55, AA; thorough: all 255 other values of every byte = every
+//! single-byte modification).
+//!
+//! Oracle (from the statement; the position class of the modified byte comes from the layout
+//! the harness recorded while assembling the datagram, not from the decoder):
+//! * header / field before the authenticator / nonce / ciphertext  ==> the decode result
+//!   reports no authenticated field, no encrypted field and no cookie keys;
+//! * authenticator type+length words, nonce padding, bytes after the ciphertext inside the
+//!   field, fields or MAC after the authenticator ==> the (authenticated, encrypted) lists
+//!   are identical to the base's or both empty; cookie keys, if reported, are the base's and
+//!   only come together with the base's authenticated content.
+//! "Decode result" covers both `Ok((packet, cookie))` and the packet carried inside
+//! `Err(DecryptError(packet))`.
+use std::collections::HashSet;
+
+use super::c23::{self, Alg, Built, Dir, Env, Field, KeyCtx, Region};
+use super::common::{self, Ctx};
+use crate::packet::verif_probe::gh::{view, View};
+use crate::packet::PacketParsingError;
+
+#[derive(Clone, Copy, PartialEq, Eq, Debug)]
+enum Role {
+    /// client -> server, c2s key, decoded with the server key set (cookie in the packet)
+    Request,
+    /// server -> client, s2c key, decoded with the client's cipher
+    Response,
+}
+
+struct Base {
+    desc: String,
+    role: Role,
+    alg: Alg,
+    built: Built,
+    /// number of fields placed before the authenticator / inside the plaintext
+    n_pre: usize,
+    n_enc: usize,
+}
+
+fn ctx_name(role: Role, alg: Alg) -> String {
+    match role {
+        Role::Request => "server-keyset".to_string(),
+        Role::Response => format!("client-s2c{}", alg.tag()),
+    }
+}
+
+fn key_ctx<'a>(env: &'a Env, role: Role, alg: Alg) -> KeyCtx<'a> {
+    match role {
+        Role::Request => KeyCtx::Server(&env.keyset),
+        Role::Response => KeyCtx::Client(env.cipher(alg, Dir::S2C)),
+    }
+}
+
+fn bases(env: &Env) -> Vec<Base> {
+    let mut out = Vec::new();
+    let uid = c23::ef("uid32", c23::T_UID, &c23::filler(32, 0x41));
+    let v4h = [
+        c23::hdr_v34(4, 0, 3, 0, 6, 0xE8, 0, 0, [0; 4], [0, 0, 0, 0x0123_4567_89AB_CDEF]),
+        c23::hdr_v34(4, 0, 4, 2, 6, 0xE8, 0x0000_0100, 0x0000_0200, [10, 0, 0, 1], [1, 0x0123_4567_89AB_CDEF, 3, 4]),
+    ];
+    let v5h = [
+        c23::hdr_v5(0, 3, 0, 6, 0, 0, 0, 0, 0, [0, 0], 0, 0x0123_4567_89AB_CDEF, 0, 0),
+        c23::hdr_v5(0, 4, 2, 6, 0xE8, 0x100, 0x200, 0, 0, [0, 1], 0x1111_2222_3333_4444, 0x0123_4567_89AB_CDEF, 3, 4),
+    ];
+    for role in [Role::Request, Role::Response] {
+        for v5 in [false, true] {
+            for alg in [Alg::A256, Alg::A512] {
+                let dir = if role == Role::Request { Dir::C2S } else { Dir::S2C };
+                let ck = c23::ef("ck", c23::T_COOKIE, &env.cookies[alg.idx()]);
+                // fields before the authenticator
+                let mut pre: Vec<Field> = vec![uid.clone()];
+                if role == Role::Request {
+                    pre.push(ck.clone());
+                    pre.push(c23::ef("ph", c23::T_PLACEHOLDER, &vec![0u8; env.cookies[alg.idx()].len()]));
+                }
+                if v5 {
+                    pre.push(c23::draft_field());
+                }
+                // plaintexts
+                let plaintexts: Vec<(&str, Vec<Field>)> = match role {
+                    Role::Request => vec![("pt-empty", vec![]), ("pt-uid8", vec![c23::ef("u", c23::T_UID, &c23::filler(8, 0x31))])],
+                    Role::Response => vec![("pt-ck", vec![ck.clone()]), ("pt-2ck", vec![ck.clone(), ck.clone()])],
+                };
+                // trailing material
+                let posts: Vec<(&str, Vec<Field>, Vec<u8>)> = if v5 {
+                    vec![
+                        ("post0", vec![], vec![]),
+                        ("post1", vec![c23::ef("rs7", c23::T_REFID_RESP, &[0x61, 0x62, 0x63])], vec![]),
+                        ("post2", vec![c23::ef("uffff-7", 0xFFFF, &[1, 2, 3]), c23::ef("uid32b", c23::T_UID, &c23::filler(32, 0x91))], vec![]),
+                    ]
+                } else {
+                    vec![
+                        ("post0", vec![], vec![]),
+                        ("post1", vec![c23::ef("uid32b", c23::T_UID, &c23::filler(32, 0x91))], vec![]),
+                        ("post2", vec![c23::ef("u28", 0x0002, &c23::filler(24, 0x75)), c23::ef("uid32b", c23::T_UID, &c23::filler(32, 0x91))], vec![]),
+                        ("post-mac20", vec![], [&[0, 0, 0, 1][..], &c23::filler(16, 0xA1)].concat()),
+                    ]
+                };
+                for (pt_name, pt_fields) in plaintexts.iter() {
+                    let pt = c23::encode_raw(pt_fields);
+                    let auths: Vec<(&str, Field)> = vec![
+                        ("auth", c23::auth_crate("au", alg, dir, pt.clone(), vec![])),
+                        ("auth-tail8", c23::auth_crate("au", alg, dir, pt.clone(), vec![0xA0, 0xA1, 0xA2, 0xA3, 0, 0, 0, 0])),
+                        ("auth-nonce13", c23::auth_ext("au", alg, dir, pt.clone(), Some(c23::filler(13, 0x21)), 0x5A, vec![])),
+                    ];
+                    for (a_name, a_field) in auths.iter() {
+                        for (post_name, post_fields, tail) in posts.iter() {
+                            let mut fields: Vec<&Field> = pre.iter().collect();
+                            fields.push(a_field);
+                            fields.extend(post_fields.iter());
+                            let header = match (v5, role) {
+                                (false, Role::Request) => &v4h[0],
+                                (false, Role::Response) => &v4h[1],
+                                (true, Role::Request) => &v5h[0],
+                                (true, Role::Response) => &v5h[1],
+                            };
+                            let built = c23::assemble(env, header, &fields, tail);
+                            out.push(Base {
+                                desc: format!(
+                                    "{}/{}/aead{}/{}/{}/{}",
+                                    if v5 { "v5" } else { "v4" },
+                                    if role == Role::Request { "request" } else { "response" },
+                                    alg.tag(),
+                                    a_name,
+                                    pt_name,
+                                    post_name
+                                ),
+                                role,
+                                alg,
+                                built,
+                                n_pre: pre.len(),
+                                n_enc: pt_fields.len(),
+                            });
+                        }
+                    }
+                }
+            }
+        }
+    }
+    out
+}
+
+/// What the decoder reported: field lists + cookie keys (s2c, c2s), if any.
+#[derive(Clone, Debug, PartialEq, Eq)]
+struct Obs {
+    kind: &'static str,
+    view: Option<View>,
+    cookie_keys: Option<(Vec<u8>, Vec<u8>)>,
+}
+
+impl Obs {
+    fn auth_enc(&self) -> (usize, usize) {
+        self.view.as_ref().map(|v| (v.authenticated.len(), v.encrypted.len())).unwrap_or((0, 0))
+    }
+    fn nothing_authentic(&self) -> bool {
+        self.auth_enc() == (0, 0) && self.cookie_keys.is_none()
+    }
+    fn same_content(&self, base: &Obs) -> bool {
+        match (&self.view, &base.view) {
+            (Some(a), Some(b)) => a.authenticated == b.authenticated && a.encrypted == b.encrypted,
+            _ => false,
+        }
+    }
+}
+
+fn observe(k: &KeyCtx<'_>, bytes: &[u8]) -> Result<Obs, String> {
+    common::catch(|| match k.decode(bytes) {
+        Ok((p, cookie)) => Obs {
+            kind: "ok",
+            view: Some(view(&p)),
+            cookie_keys: cookie.map(|c| (c.s2c.key_bytes().to_vec(), c.c2s.key_bytes().to_vec())),
+        },
+        Err(PacketParsingError::DecryptError(p)) => Obs { kind: "decrypt-error-with-packet", view: Some(view(&p)), cookie_keys: None },
+        Err(_) => Obs { kind: "parse-error", view: None, cookie_keys: None },
+    })
+}
+
+fn strong(r: Region) -> bool {
+    matches!(r, Region::Header | Region::PreField | Region::Nonce | Region::Ciphertext)
+}
+
+fn region_name(r: Region) -> &'static str {
+    match r {
+        Region::Header => "header",
+        Region::PreField => "prefield",
+        Region::AuthLengths => "auth-lengths",
+        Region::Nonce => "nonce",
+        Region::NoncePad => "nonce-padding",
+        Region::Ciphertext => "ciphertext",
+        Region::AuthTail => "auth-tail",
+        Region::PostField => "trailing-field",
+        Region::Tail => "trailing-mac",
+    }
+}
+
+fn region_of_name(s: &str) -> Option<Region> {
+    [
+        Region::Header, Region::PreField, Region::AuthLengths, Region::Nonce, Region::NoncePad, Region::Ciphertext,
+        Region::AuthTail, Region::PostField, Region::Tail,
+    ]
+    .into_iter()
+    .find(|r| region_name(*r) == s)
+}
+
+/// The verdict for one mutant. `Ok(class of outcome)` or `Err((violation class, text))`.
+fn judge(region: Region, base: &Obs, got: &Result<Obs, String>) -> Result<&'static str, (String, String)> {
+    let got = match got {
+        Ok(o) => o,
+        // a panic is C23's finding; here it reports nothing as authentic
+        Err(_) => return Ok("panic"),
+    };
+    if strong(region) {
+        if got.nothing_authentic() {
+            Ok(if got.view.is_some() { "rejected-with-packet" } else { "rejected-parse-error" })
+        } else {
+            Err((
+                format!("C25:accepted-after-{}-change", region_name(region)),
+                format!(
+                    "a modified {} byte still yields {} authenticated + {} encrypted fields, cookie keys: {} ({})",
+                    region_name(region),
+                    got.auth_enc().0,
+                    got.auth_enc().1,
+                    got.cookie_keys.is_some(),
+                    got.kind
+                ),
+            ))
+        }
+    } else if got.auth_enc() == (0, 0) {
+        if got.cookie_keys.is_some() {
+            Err(("C25:cookie-keys-without-authentication".into(), format!("cookie keys reported although no field is authenticated ({})", got.kind)))
+        } else {
+            Ok(if got.view.is_some() { "empty-with-packet" } else { "empty-parse-error" })
+        }
+    } else if got.same_content(base) {
+        match (&got.cookie_keys, &base.cookie_keys) {
+            (Some(a), Some(b)) if a != b => Err(("C25:different-cookie-keys".into(), "cookie keys differ from the base packet's".into())),
+            (Some(_), None) => Err(("C25:different-cookie-keys".into(), "cookie keys reported that the base packet does not yield".into())),
+            _ => Ok("identical"),
+        }
+    } else {
+        Err((
+            "C25:different-content-authenticated".into(),
+            format!(
+                "a modified {} byte makes different content appear authenticated/encrypted: base {:?} / {:?}, now {:?} / {:?}",
+                region_name(region),
+                base.view.as_ref().map(|v| &v.authenticated),
+                base.view.as_ref().map(|v| &v.encrypted),
+                got.view.as_ref().map(|v| &v.authenticated),
+                got.view.as_ref().map(|v| &v.encrypted),
+            ),
+        ))
+    }
+}
+
+/// Independent expectation about the unmodified base: it authenticates, with exactly the
+/// fields the harness put before the authenticator / into the plaintext, and (server) the
+/// session keys the harness put into the cookie.
+fn check_base(env: &Env, b: &Base, obs: &Result<Obs, String>) -> Result<(), String> {
+    let o = obs.as_ref().map_err(|e| format!("decoder panicked on the base: {e}"))?;
+    if o.kind != "ok" {
+        return Err(format!("base packet is not accepted: {}", o.kind));
+    }
+    if o.auth_enc() != (b.n_pre, b.n_enc) {
+        return Err(format!("base packet yields {:?} authenticated/encrypted fields, built with {:?}", o.auth_enc(), (b.n_pre, b.n_enc)));
+    }
+    match (b.role, &o.cookie_keys) {
+        (Role::Request, Some((s2c, c2s))) => {
+            if *s2c != c23::key_bytes(b.alg, Dir::S2C) || *c2s != c23::key_bytes(b.alg, Dir::C2S) {
+                return Err("cookie keys of the base differ from the keys put into the cookie".into());
+            }
+        }
+        (Role::Request, None) => return Err("server context did not recover cookie keys from the base".into()),
+        (Role::Response, Some(_)) => return Err("client context reported cookie keys".into()),
+        (Role::Response, None) => {}
+    }
+    let _ = env;
+    Ok(())
+}
+
+fn trace_of(b: &Base, region: Region, mutant: &[u8]) -> String {
+    format!("{};{};{};{}", ctx_name(b.role, b.alg), region_name(region), common::hex(&b.built.bytes), common::hex(mutant))
+}
+
+fn replay(ctx: &Ctx, env: &Env, trace: &str) -> String {
+    // "<context>;<region>;<base hex>;<mutant hex>"
+    let p: Vec<&str> = trace.split(';').collect();
+    if p.len() != 4 {
+        return "unparsable trace".into();
+    }
+    let k = match p[0] {
+        "server-keyset" => KeyCtx::Server(&env.keyset),
+        "client-s2c512" => KeyCtx::Client(env.cipher(Alg::A512, Dir::S2C)),
+        _ => KeyCtx::Client(env.cipher(Alg::A256, Dir::S2C)),
+    };
+    let (Some(region), Some(base), Some(mutant)) = (region_of_name(p[1]), common::unhex(p[2]), common::unhex(p[3])) else {
+        return "unparsable trace".into();
+    };
+    let bo = observe(&k, &base);
+    let mo = observe(&k, &mutant);
+    let Ok(bo_ok) = &bo else {
+        return format!("base panics: {bo:?}");
+    };
+    let verdict = judge(region, bo_ok, &mo);
+    if let Err((class, what)) = &verdict {
+        ctx.violation(class, what.clone(), trace);
+    }
+    let summary = |o: &Result<Obs, String>| match o {
+        Ok(o) => format!("{} auth/enc={:?} cookie_keys={}", o.kind, o.auth_enc(), o.cookie_keys.is_some()),
+        Err(e) => format!("PANIC {e}"),
+    };
+    format!("region={} base=[{}] mutant=[{}] verdict={:?}", p[1], summary(&bo), summary(&mo), verdict.map_err(|e| e.0))
+}
+
+#[test]
+fn check() {
+    let ctx = Ctx::new("C25");
+    let env = Env::new();
+    if let Some(t) = common::replay_trace() {
+        let a = replay(&ctx, &env, &t);
+        let b = replay(&ctx, &env, &t);
+        common::report_replay("C25", &a, &b, ctx.violation_count() > 0);
+        return;
+    }
+    let quick = ctx.quick();
+    let all = bases(&env);
+    ctx.rule(
+        "bases = {request decoded with the server KeySet, response decoded with the client's s2c cipher} x {NTPv4, NTPv5} x \
+         {AES-SIV-CMAC-256, -512} x authenticator {canonical, +8 in-field tail bytes, 13-byte nonce with 3 padding bytes} x 2 plaintexts \
+         (request: empty / one UID field; response: 1 / 2 cookies) x trailer {none, 1 field, 2 fields, v4: 20-byte MAC}; request = UID + cookie + placeholder \
+         (+ v5 draft id) before the authenticator, response = UID (+ draft id). Mutants of each base: every single-bit flip of every \
+         byte + byte substitutions (quick: xor FF / 55 / AA; thorough: all 255 other values of every byte). Each mutant is judged by \
+         the position class of the touched byte. distinct & non-trivial = distinct (base, byte offset, verdict class) triples.",
+    );
+    ctx.assume("position classes (header / pre-authenticator field / authenticator words / nonce / nonce padding / ciphertext / in-field tail / trailing field / MAC) are taken from the layout recorded by the harness's own assembler");
+    ctx.assume("the authenticator's type and length words count as 'the authenticator's own length' bytes (weak class); the statement names only nonce and ciphertext of the authenticator as strong");
+    ctx.assume("canonical and tail8 authenticators are sealed with the crate's own Cipher::encrypt (random nonce; the enumeration and its counts do not depend on byte values), the 13-byte-nonce ones with the AES-SIV primitive the crate wraps (crate's [aad, nonce] convention, cross-checked at start-up); every base must authenticate through the real decoder with exactly the fields the harness built in");
+    for f in &env.self_test {
+        ctx.violation("C25:cipher-convention-mismatch", format!("start-up cross-check of the crate's Cipher/KeySet against the AES-SIV [aad, nonce] convention failed: {f}"), "self-test");
+    }
+    ctx.set("bases", all.len() as u64);
+
+    // the unmodified bases first (sequential; also prints their layout as samples)
+    let mut base_obs: Vec<Option<Obs>> = Vec::new();
+    for b in &all {
+        let k = key_ctx(&env, b.role, b.alg);
+        let o = observe(&k, &b.built.bytes);
+        ctx.inc("evaluations");
+        ctx.inc("transitions");
+        match check_base(&env, b, &o) {
+            Ok(()) => base_obs.push(o.ok()),
+            Err(e) => {
+                ctx.violation("C25:base-not-authentic-as-built", format!("{e} [{}]", b.desc), trace_of(b, Region::Header, &b.built.bytes));
+                // still sweep it if the decoder reports anything as authentic at all
+                base_obs.push(o.ok().filter(|o| !o.nothing_authentic()));
+            }
+        }
+        let mut spans: Vec<(Region, usize)> = Vec::new();
+        for r in &b.built.region {
+            match spans.last_mut() {
+                Some((lr, n)) if lr == r => *n += 1,
+                _ => spans.push((*r, 1)),
+            }
+        }
+        ctx.sample(format!(
+            "{} ({} bytes): {}",
+            b.desc,
+            b.built.bytes.len(),
+            spans.iter().map(|(r, n)| format!("{}x{}", region_name(*r), n)).collect::<Vec<_>>().join(" ")
+        ));
+    }
+
+    // work items = (base, offset)
+    let mut items: Vec<(usize, usize)> = Vec::new();
+    for (bi, b) in all.iter().enumerate() {
+        if base_obs[bi].is_some() {
+            for off in 0..b.built.bytes.len() {
+                items.push((bi, off));
+            }
+        }
+    }
+    ctx.set("byte_positions", items.len() as u64);
+    struct Local<'a> {
+        ctx: &'a Ctx,
+        counts: std::collections::BTreeMap<String, u64>,
+        evals: u64,
+        distinct: HashSet<u64>,
+    }
+    impl Drop for Local<'_> {
+        fn drop(&mut self) {
+            for (k, v) in &self.counts {
+                self.ctx.add(k, *v);
+            }
+            self.ctx.add("evaluations", self.evals);
+            self.ctx.add("transitions", self.evals);
+            self.ctx.distinct_many(self.distinct.drain());
+        }
+    }
+    let found = c23::Findings::new();
+    common::par_for_with(
+        items.len() as u64,
+        16,
+        || Local { ctx: &ctx, counts: Default::default(), evals: 0, distinct: HashSet::new() },
+        |st, i| {
+            let (bi, off) = items[i as usize];
+            let b = &all[bi];
+            let base = base_obs[bi].as_ref().expect("base");
+            let k = key_ctx(&env, b.role, b.alg);
+            let region = b.built.region[off];
+            let orig = b.built.bytes[off];
+            let mut work = b.built.bytes.clone();
+            let mut values: Vec<u8> = Vec::with_capacity(255);
+            if quick {
+                // value-independent masks: the 8 single-bit flips + 3 multi-bit ones
+                for mask in [0x01u8, 0x02, 0x04, 0x08, 0x10, 0x20, 0x40, 0x80, 0xFF, 0x55, 0xAA] {
+                    values.push(orig ^ mask);
+                }
+            } else {
+                values.extend((0..=255u8).filter(|v| *v != orig));
+            }
+            for v in values {
+                work[off] = v;
+                let got = observe(&k, &work);
+                st.evals += 1;
+                match judge(region, base, &got) {
+                    Ok(class) => {
+                        *st.counts.entry(format!("{}.{}", region_name(region), class)).or_insert(0) += 1;
+                        st.distinct.insert(common::hash_of(&(bi, off, class)));
+                    }
+                    Err((class, what)) => {
+                        found.report(&class, format!("{what} [{} offset {off}: {orig:#04x} -> {v:#04x}]", b.desc), trace_of(b, region, &work));
+                        st.distinct.insert(common::hash_of(&(bi, off, &class)));
+                    }
+                }
+            }
+        },
+    );
+    found.flush(&ctx);
+    ctx.set("states", all.len() as u64);
+    ctx.exhaustive(true);
+    ctx.finish();
+}
